@@ -1,6 +1,7 @@
 package world
 
 import (
+	"time"
 	"fmt"
 
 	"verifsim/refsn"
@@ -17,16 +18,25 @@ var wildPool = []string{"t/#", "#", "+/a", "x/+/z", "n/+", "dev/+/temp"}
 
 // SchedFor picks a scheduling mode swarm-style: none / sparse / focus / dense.
 func (g *Gen) Sched(focus ...string) simrt.SchedCfg {
+	var c simrt.SchedCfg
 	switch x := g.Float(); {
-	case x < 0.35:
+	case x < 0.3:
 		return simrt.SchedCfg{}
-	case x < 0.65:
-		return simrt.SchedCfg{Density: 0.01 + g.Float()*0.08}
+	case x < 0.6:
+		c = simrt.SchedCfg{Density: 0.01 + g.Float()*0.08}
 	case x < 0.85 && len(focus) > 0:
-		return simrt.SchedCfg{Density: g.Float() * 0.02, Focus: focus, FocusDensity: 0.3 + g.Float()*0.7}
+		c = simrt.SchedCfg{Density: g.Float() * 0.02, Focus: focus, FocusDensity: 0.3 + g.Float()*0.7}
 	default:
-		return simrt.SchedCfg{Density: 0.3 + g.Float()*0.7}
+		c = simrt.SchedCfg{Density: 0.3 + g.Float()*0.7}
 	}
+	// slow node: goroutines stay parked at a yield while virtual time passes and further events
+	// arrive, so that handlers reacting to different events (and timers) really overlap
+	if g.Bool(0.6) {
+		c.Overlap = true
+		c.StallProb = []float64{0.002, 0.01, 0.05}[g.Intn(3)]
+		c.MaxStall = []time.Duration{200 * time.Microsecond, 5 * time.Millisecond, 50 * time.Millisecond}[g.Intn(3)]
+	}
+	return c
 }
 
 // BaseCfg: a gateway world with lossless links.
